@@ -19,6 +19,7 @@ import (
 	"io"
 	"log"
 	"os"
+	"os/exec"
 	"path/filepath"
 	"strconv"
 	"strings"
@@ -59,6 +60,14 @@ type recorder struct {
 	holdClose    int32         // the next Close stays inside the user method until released (or 100 ms)
 	closeEntered chan struct{}
 	closeRelease chan struct{}
+	// dwell (ns) inside PrepareSnapshot / Sync, set by the SYNCX operation
+	dwellPrepare int64
+	dwellSync    int64
+	// the next SaveSnapshot / RecoverFromSnapshot lingers: it stays inside the user method
+	// until its stop channel closes (at most 1 s) and a little longer (CLOSEHOST)
+	lingerSave    int32
+	lingerRecover int32
+	lingerEntered chan struct{}
 	delay        time.Duration // randomised delay inside methods (thorough)
 	rnd          *vh.Rand
 	disk         uint64 // the "disk" of the on-disk state machine: last applied index made durable
@@ -68,7 +77,8 @@ type recorder struct {
 func newRecorder(seed uint64) *recorder {
 	return &recorder{closedC: map[uint64]chan struct{}{}, blockEntered: make(chan struct{}, 64),
 		release: make(chan struct{}), rnd: vh.NewRand(seed),
-		closeEntered: make(chan struct{}, 8), closeRelease: make(chan struct{}, 8)}
+		closeEntered: make(chan struct{}, 8), closeRelease: make(chan struct{}, 8),
+		lingerEntered: make(chan struct{}, 8)}
 }
 
 func (r *recorder) newInc() uint64 {
@@ -203,6 +213,31 @@ func (c *core) close() error {
 	return nil
 }
 
+// linger: see recorder.lingerSave; reports whether the stop channel closed meanwhile
+func (c *core) linger(flag *int32, done <-chan struct{}) bool {
+	if !atomic.CompareAndSwapInt32(flag, 1, 0) {
+		return false
+	}
+	select {
+	case c.r.lingerEntered <- struct{}{}:
+	default:
+	}
+	stopped := false
+	select {
+	case <-done:
+		stopped = true
+	case <-time.After(time.Second):
+	}
+	time.Sleep(40 * time.Millisecond)
+	return stopped
+}
+
+func (c *core) dwell(ns *int64) {
+	if d := atomic.LoadInt64(ns); d > 0 {
+		time.Sleep(time.Duration(d))
+	}
+}
+
 func writeSnap(w io.Writer, applied, count uint64) error {
 	b := make([]byte, 16)
 	binary.LittleEndian.PutUint64(b, applied)
@@ -230,15 +265,21 @@ func (s *plainSM) Update(e sm.Entry) (sm.Result, error) {
 	return sm.Result{Value: e.Index}, nil
 }
 func (s *plainSM) Lookup(q interface{}) (interface{}, error) { return s.lookup(q) }
-func (s *plainSM) SaveSnapshot(w io.Writer, _ sm.ISnapshotFileCollection, _ <-chan struct{}) error {
+func (s *plainSM) SaveSnapshot(w io.Writer, _ sm.ISnapshotFileCollection, done <-chan struct{}) error {
 	s.r.enter(s.inc, "SaveSnapshot", nil)
 	err := writeSnap(w, s.applied, atomic.LoadUint64(&s.count))
+	if s.linger(&s.r.lingerSave, done) && err == nil {
+		err = sm.ErrSnapshotStopped
+	}
 	s.r.exit(s.inc, "SaveSnapshot", 0)
 	return err
 }
-func (s *plainSM) RecoverFromSnapshot(r io.Reader, _ []sm.SnapshotFile, _ <-chan struct{}) error {
+func (s *plainSM) RecoverFromSnapshot(r io.Reader, _ []sm.SnapshotFile, done <-chan struct{}) error {
 	s.r.enter(s.inc, "RecoverFromSnapshot", nil)
 	a, c, err := readSnap(r)
+	if s.linger(&s.r.lingerRecover, done) && err == nil {
+		err = sm.ErrSnapshotStopped
+	}
 	if err == nil {
 		s.applied = a
 		atomic.StoreUint64(&s.count, c)
@@ -273,22 +314,29 @@ func (s *concSM) Update(es []sm.Entry) ([]sm.Entry, error) {
 func (s *concSM) Lookup(q interface{}) (interface{}, error) { return s.lookup(q) }
 func (s *concSM) PrepareSnapshot() (interface{}, error) {
 	s.r.enter(s.inc, "PrepareSnapshot", nil)
+	s.dwell(&s.r.dwellPrepare)
 	s.mu.Lock()
 	ctx := [2]uint64{s.applied, atomic.LoadUint64(&s.count)}
 	s.mu.Unlock()
 	s.r.exit(s.inc, "PrepareSnapshot", 0)
 	return ctx, nil
 }
-func (s *concSM) SaveSnapshot(ctx interface{}, w io.Writer, _ sm.ISnapshotFileCollection, _ <-chan struct{}) error {
+func (s *concSM) SaveSnapshot(ctx interface{}, w io.Writer, _ sm.ISnapshotFileCollection, done <-chan struct{}) error {
 	s.r.enter(s.inc, "SaveSnapshot", nil)
 	c := ctx.([2]uint64)
 	err := writeSnap(w, c[0], c[1])
+	if s.linger(&s.r.lingerSave, done) && err == nil {
+		err = sm.ErrSnapshotStopped
+	}
 	s.r.exit(s.inc, "SaveSnapshot", 0)
 	return err
 }
-func (s *concSM) RecoverFromSnapshot(r io.Reader, _ []sm.SnapshotFile, _ <-chan struct{}) error {
+func (s *concSM) RecoverFromSnapshot(r io.Reader, _ []sm.SnapshotFile, done <-chan struct{}) error {
 	s.r.enter(s.inc, "RecoverFromSnapshot", nil)
 	a, c, err := readSnap(r)
+	if s.linger(&s.r.lingerRecover, done) && err == nil {
+		err = sm.ErrSnapshotStopped
+	}
 	if err == nil {
 		s.mu.Lock()
 		s.applied = a
@@ -338,27 +386,35 @@ func (s *diskSM) Update(es []sm.Entry) ([]sm.Entry, error) {
 func (s *diskSM) Lookup(q interface{}) (interface{}, error) { return s.lookup(q) }
 func (s *diskSM) Sync() error {
 	s.r.enter(s.inc, "Sync", nil)
+	s.dwell(&s.r.dwellSync)
 	s.r.exit(s.inc, "Sync", 0)
 	return nil
 }
 func (s *diskSM) PrepareSnapshot() (interface{}, error) {
 	s.r.enter(s.inc, "PrepareSnapshot", nil)
+	s.dwell(&s.r.dwellPrepare)
 	s.mu.Lock()
 	ctx := [2]uint64{s.applied, atomic.LoadUint64(&s.count)}
 	s.mu.Unlock()
 	s.r.exit(s.inc, "PrepareSnapshot", 0)
 	return ctx, nil
 }
-func (s *diskSM) SaveSnapshot(ctx interface{}, w io.Writer, _ <-chan struct{}) error {
+func (s *diskSM) SaveSnapshot(ctx interface{}, w io.Writer, done <-chan struct{}) error {
 	s.r.enter(s.inc, "SaveSnapshot", nil)
 	c := ctx.([2]uint64)
 	err := writeSnap(w, c[0], c[1])
+	if s.linger(&s.r.lingerSave, done) && err == nil {
+		err = sm.ErrSnapshotStopped
+	}
 	s.r.exit(s.inc, "SaveSnapshot", 0)
 	return err
 }
-func (s *diskSM) RecoverFromSnapshot(r io.Reader, _ <-chan struct{}) error {
+func (s *diskSM) RecoverFromSnapshot(r io.Reader, done <-chan struct{}) error {
 	s.r.enter(s.inc, "RecoverFromSnapshot", nil)
 	a, c, err := readSnap(r)
+	if s.linger(&s.r.lingerRecover, done) && err == nil {
+		err = sm.ErrSnapshotStopped
+	}
 	if err == nil {
 		s.mu.Lock()
 		s.applied = a
@@ -425,6 +481,9 @@ type live struct {
 	running bool
 	started bool
 	payload uint64
+	hostClosed bool
+	dir     string
+	fs      gvfs.FS
 	wg      sync.WaitGroup
 	st      *vh.Stats
 }
@@ -502,9 +561,10 @@ func (l *live) run() {
 		panic(err)
 	}
 	l.nh = nh
+	l.dir, l.fs = dir, fs
 	for _, op := range l.c.ops {
 		f := strings.Fields(op)
-		if len(f) == 0 {
+		if len(f) == 0 || l.hostClosed {
 			continue
 		}
 		l.st.Count("op:" + f[0])
@@ -566,6 +626,82 @@ func (l *live) run() {
 				case <-time.After(time.Second):
 				}
 			}
+		case "SYNCX": // periodic Sync of the apply worker while an exported snapshot is being prepared
+			if l.running {
+				atomic.StoreInt64(&l.r.dwellPrepare, int64(40*time.Millisecond))
+				atomic.StoreInt64(&l.r.dwellSync, int64(2*time.Millisecond))
+				var wg sync.WaitGroup
+				wg.Add(1)
+				go func() { defer wg.Done(); l.export() }()
+				t0 := time.Now()
+				// linearizable read requests make the step worker produce raft updates without
+				// committed entries: every one of them runs node.runSyncTask, so PeriodicSync tasks
+				// reach the head of the apply queue while PrepareSnapshot is still dwelling
+				for time.Since(t0) < 90*time.Millisecond {
+					if rs, err := l.nh.ReadIndex(shardID, time.Second); err == nil {
+						select {
+						case <-rs.ResultC():
+						case <-time.After(200 * time.Millisecond):
+						}
+						rs.Release()
+					}
+					time.Sleep(time.Millisecond)
+				}
+				l.propose()
+				wg.Wait()
+				atomic.StoreInt64(&l.r.dwellPrepare, 0)
+				atomic.StoreInt64(&l.r.dwellSync, 0)
+			}
+		case "CLOSEHOST": // NodeHost.Close while SaveSnapshot (S) / RecoverFromSnapshot (R) is in progress
+			for len(l.r.lingerEntered) > 0 {
+				<-l.r.lingerEntered
+			}
+			mode := "S"
+			if len(f) > 1 {
+				mode = f[1]
+			}
+			armed := false
+			if mode == "S" && l.running {
+				l.propose()
+				atomic.StoreInt32(&l.r.lingerSave, 1)
+				armed = true
+				if l.c.kind == "disk" {
+					l.wg.Add(1)
+					go func() { defer l.wg.Done(); l.export() }()
+				} else {
+					_, _ = l.nh.RequestSnapshot(shardID, dragonboat.DefaultSnapshotOption, 2*time.Second)
+				}
+			} else if mode == "R" && l.started {
+				if l.running {
+					l.propose()
+					ctx, cancel := context.WithTimeout(context.Background(), 2*time.Second)
+					_, _ = l.nh.SyncRequestSnapshot(ctx, shardID, dragonboat.DefaultSnapshotOption)
+					cancel()
+					cc := l.r.currentClosed()
+					_ = l.nh.StopShard(shardID)
+					l.running = false
+					select {
+					case <-cc:
+					case <-time.After(2 * time.Second):
+					}
+				}
+				atomic.StoreInt32(&l.r.lingerRecover, 1)
+				armed = true
+				if err := l.startW(false); err != nil {
+					l.st.Count("start-error")
+				}
+			}
+			if armed {
+				select {
+				case <-l.r.lingerEntered:
+					l.st.Count("closehost-in-flight:" + mode)
+				case <-time.After(500 * time.Millisecond):
+					l.st.Count("closehost-not-in-flight:" + mode)
+				}
+			}
+			l.closeHost()
+			atomic.StoreInt32(&l.r.lingerSave, 0)
+			atomic.StoreInt32(&l.r.lingerRecover, 0)
 		case "LR": // late read: ReadIndex completes, the shard is stopped, the client then reads locally while Close runs
 			if l.running {
 				rs, err := l.nh.ReadIndex(shardID, time.Second)
@@ -634,11 +770,7 @@ func (l *live) run() {
 			}
 		case "EXP":
 			if l.running {
-				p := fmt.Sprintf("%s/export%d", dir, l.payload)
-				_ = fs.MkdirAll(p, 0755)
-				ctx, cancel := context.WithTimeout(context.Background(), 2*time.Second)
-				_, _ = l.nh.SyncRequestSnapshot(ctx, shardID, dragonboat.SnapshotOption{Exported: true, ExportPath: p})
-				cancel()
+				l.export()
 			}
 		case "STOP":
 			if l.running {
@@ -656,8 +788,30 @@ func (l *live) run() {
 			time.Sleep(time.Duration(n) * time.Millisecond)
 		}
 	}
+	if l.hostClosed {
+		l.wg.Wait()
+		return
+	}
+	l.closeHost()
+	l.wg.Wait()
+}
+
+var exportSeq uint64
+
+func (l *live) export() {
+	p := fmt.Sprintf("%s/export%d", l.dir, atomic.AddUint64(&exportSeq, 1))
+	_ = l.fs.MkdirAll(p, 0755)
+	ctx, cancel := context.WithTimeout(context.Background(), 2*time.Second)
+	_, _ = l.nh.SyncRequestSnapshot(ctx, shardID, dragonboat.SnapshotOption{Exported: true, ExportPath: p})
+	cancel()
+}
+
+func (l *live) closeHost() {
+	nh := l.nh
+	l.hostClosed = true
 	cc := l.r.currentClosed()
 	wasRunning := l.running
+	l.running = false
 	done := make(chan struct{})
 	go func() { nh.Close(); close(done) }()
 	if wasRunning && cc != nil {
@@ -672,7 +826,6 @@ func (l *live) run() {
 	case <-time.After(10 * time.Second):
 		l.st.Count("nodehost-close-timeout")
 	}
-	l.wg.Wait()
 }
 
 // ---------------------------------------------------------------- generator
@@ -683,7 +836,7 @@ func genLive(r *vh.Rand, id string, outDir string, tier string) string {
 	ops = append(ops, "START", fmt.Sprintf("P %d", 1+r.Intn(4)))
 	n := 4 + r.Intn(6)
 	for i := 0; i < n; i++ {
-		switch r.Intn(15) {
+		switch r.Intn(16) {
 		case 0, 1:
 			ops = append(ops, fmt.Sprintf("P %d", 1+r.Intn(5)))
 		case 2:
@@ -710,10 +863,17 @@ func genLive(r *vh.Rand, id string, outDir string, tier string) string {
 			ops = append(ops, "LR", "START", "P 1")
 		case 14:
 			ops = append(ops, "STOP", fmt.Sprintf("QS 3 %d", r.Intn(3000)), "START", "P 1")
+		case 15:
+			ops = append(ops, "SYNCX")
 		}
 	}
-	if r.Intn(3) == 0 {
+	switch r.Intn(6) {
+	case 0, 1:
 		ops = append(ops, "BR")
+	case 2:
+		ops = append(ops, "CLOSEHOST S")
+	case 3:
+		ops = append(ops, "CLOSEHOST R")
 	}
 	return fmt.Sprintf("%s live kind=%s seed=%d log=%s | %s", id, kind, r.U64()%1000000,
 		filepath.Join(outDir, "logs", id+".log"), strings.Join(ops, " ; "))
@@ -739,6 +899,25 @@ func main() {
 		genApply(r, w, a)
 		w.Close()
 	case "run":
+		// the periodic Sync of on-disk state machines is driven by settings.Soft.SyncTaskInterval
+		// (3 minutes); the library reads overrides from dragonboat-soft-settings.json in the
+		// working directory when the process starts, so the run happens in a child process
+		if os.Getenv("C11_CHILD") == "" {
+			out, _ := filepath.Abs(a.Out)
+			cases, _ := filepath.Abs(a.Cases)
+			_ = os.MkdirAll(out, 0755)
+			_ = os.WriteFile(filepath.Join(out, "dragonboat-soft-settings.json"), []byte(`{"SyncTaskInterval": 20}`), 0644)
+			exe, _ := os.Executable()
+			cmd := exec.Command(exe, "run", "-tier", a.Tier, "-seed", fmt.Sprint(a.Seed), "-cases", cases, "-out", out)
+			cmd.Dir = out
+			cmd.Env = append(os.Environ(), "C11_CHILD=1")
+			cmd.Stdout, cmd.Stderr = os.Stdout, os.Stderr
+			if err := cmd.Run(); err != nil {
+				fmt.Fprintln(os.Stderr, err)
+				os.Exit(1)
+			}
+			return
+		}
 		runCases(a)
 	}
 }
